@@ -625,6 +625,12 @@ func (c *Checked) checkErrorFacts(i int, op Op, res *OpResult, evs []Event) {
 			if op.Kind == OpMalformed {
 				what = op.Mal.String()
 			}
+			if stubPanic(f.EscStack) {
+				// the simulated environment itself panicked (not an injected
+				// fault): a bug of the harness, never a finding
+				c.viol(i, "harness-stub-panic", fmt.Sprintf("%s: a stub of the simulated environment panicked: %s", what, firstLine(f.EscText)), "HARNESS")
+				return
+			}
 			props := []string{"C14"}
 			if len(c.rejKeys) > 0 {
 				// "a rejected Provide or Decorate ... causes no later error or panic"
@@ -667,6 +673,28 @@ func (c *Checked) checkErrorFacts(i int, op Op, res *OpResult, evs []Event) {
 
 // digFrame names the innermost dig function on a panic's stack: it
 // identifies the defect and is stable under minimisation.
+// stubPanic: the panic was raised inside the simulator's own stub code (frames
+// of digsim come before the first frame of dig below the panic).
+func stubPanic(stack string) bool {
+	below := false
+	for _, l := range strings.Split(stack, "\n") {
+		if strings.HasPrefix(l, "panic(") {
+			below = true
+			continue
+		}
+		if !below || strings.HasPrefix(l, "\t") {
+			continue
+		}
+		if strings.HasPrefix(l, "go.uber.org/dig") {
+			return false
+		}
+		if strings.HasPrefix(l, "digsim.(*World).") || strings.HasPrefix(l, "digsim.cat") {
+			return true
+		}
+	}
+	return false
+}
+
 func digFrame(stack string) string {
 	for _, l := range strings.Split(stack, "\n") {
 		if strings.HasPrefix(l, "go.uber.org/dig") && !strings.Contains(l, "dig.(*Scope).Invoke(") {
@@ -1285,7 +1313,16 @@ func (c *Checked) checkInvokeModel(i int, op Op, res *OpResult, evs []Event) {
 		if !anyFail {
 			c.probe("invoke_available")
 			if res.Verdict != VOK {
-				c.viol(i, "available-but-failed", fmt.Sprintf("Invoke f%d from s%d: every required dependency is available, no cycle, no user failure, yet verdict %s: %s", inv.ID, op.Scope, res.Verdict, res.Facts.Text), c.afterFault("C04", "C08", "C16")...)
+				props := []string{"C04", "C08", "C16"}
+				for _, p := range lp {
+					// a value group that should have been delivered was not
+					if p.Key.IsGroup() && !p.Soft {
+						props = append(props, "C10")
+					} else if p.Key.IsGroup() {
+						props = append(props, "C11")
+					}
+				}
+				c.viol(i, "available-but-failed", fmt.Sprintf("Invoke f%d from s%d: every required dependency is available, no cycle, no user failure, yet verdict %s: %s", inv.ID, op.Scope, res.Verdict, res.Facts.Text), c.afterFault(props...)...)
 			}
 		}
 	}
